@@ -1,4 +1,4 @@
-package c03
+package crashlog
 
 import (
 	"bytes"
@@ -13,33 +13,31 @@ import (
 	"time"
 
 	"perkeep.org/pkg/blobserver/files"
-
-	"verif/crashlog"
 )
 
-// memVFS is a recording in-memory files.VFS over a crashlog.Image.
-type memVFS struct {
-	im  *crashlog.Image
-	log *crashlog.Log // nil = not recording
-	// fail, if set, may fail an operation before it acts.
-	fail func(op, path string) error
+// memVFS is a recording in-memory files.VFS over a Image.
+type MemVFS struct {
+	Im  *Image
+	log *Log // nil = not recording
+	// Fail, if set, may fail an operation before it acts.
+	Fail func(op, path string) error
 	tmpN int
 }
 
-func newMemVFS(im *crashlog.Image, log *crashlog.Log) *memVFS {
+func NewMemVFS(im *Image, log *Log) *MemVFS {
 	im.Dirs["/"] = true
-	return &memVFS{im: im, log: log}
+	return &MemVFS{Im: im, log: log}
 }
 
-func (v *memVFS) rec(r crashlog.Rec) {
+func (v *MemVFS) rec(r Rec) {
 	if v.log != nil {
 		v.log.Add(r)
 	}
 }
 
-func (v *memVFS) failing(op, p string) error {
-	if v.fail != nil {
-		return v.fail(op, p)
+func (v *MemVFS) failing(op, p string) error {
+	if v.Fail != nil {
+		return v.Fail(op, p)
 	}
 	return nil
 }
@@ -62,29 +60,29 @@ func (i memInfo) ModTime() time.Time { return time.Time{} }
 func (i memInfo) IsDir() bool        { return i.dir }
 func (i memInfo) Sys() any           { return nil }
 
-func (v *memVFS) Remove(p string) error {
+func (v *MemVFS) Remove(p string) error {
 	if err := v.failing("remove", p); err != nil {
 		return err
 	}
-	if _, ok := v.im.Files[p]; !ok {
+	if _, ok := v.Im.Files[p]; !ok {
 		return &os.PathError{Op: "remove", Path: p, Err: os.ErrNotExist}
 	}
-	delete(v.im.Files, p)
-	v.rec(crashlog.Rec{Op: "remove", Path: p})
+	delete(v.Im.Files, p)
+	v.rec(Rec{Op: "remove", Path: p})
 	return nil
 }
 
-func (v *memVFS) RemoveDir(p string) error {
-	if !v.im.Dirs[p] {
+func (v *MemVFS) RemoveDir(p string) error {
+	if !v.Im.Dirs[p] {
 		return &os.PathError{Op: "rmdir", Path: p, Err: os.ErrNotExist}
 	}
 	prefix := strings.TrimSuffix(p, "/") + "/"
-	for f := range v.im.Files {
+	for f := range v.Im.Files {
 		if strings.HasPrefix(f, prefix) {
 			return &os.PathError{Op: "rmdir", Path: p, Err: errors.New("directory not empty")}
 		}
 	}
-	for d := range v.im.Dirs {
+	for d := range v.Im.Dirs {
 		if strings.HasPrefix(d, prefix) {
 			return &os.PathError{Op: "rmdir", Path: p, Err: errors.New("directory not empty")}
 		}
@@ -92,21 +90,21 @@ func (v *memVFS) RemoveDir(p string) error {
 	if err := v.failing("rmdir", p); err != nil {
 		return err
 	}
-	delete(v.im.Dirs, p)
-	v.rec(crashlog.Rec{Op: "remove", Path: p})
+	delete(v.Im.Dirs, p)
+	v.rec(Rec{Op: "remove", Path: p})
 	return nil
 }
 
-func (v *memVFS) Stat(p string) (os.FileInfo, error) { return v.Lstat(p) }
+func (v *MemVFS) Stat(p string) (os.FileInfo, error) { return v.Lstat(p) }
 
-func (v *memVFS) Lstat(p string) (os.FileInfo, error) {
+func (v *MemVFS) Lstat(p string) (os.FileInfo, error) {
 	if err := v.failing("stat", p); err != nil {
 		return nil, err
 	}
-	if f, ok := v.im.Files[p]; ok {
+	if f, ok := v.Im.Files[p]; ok {
 		return memInfo{path.Base(p), int64(len(f)), false}, nil
 	}
-	if v.im.Dirs[p] {
+	if v.Im.Dirs[p] {
 		return memInfo{path.Base(p), 0, true}, nil
 	}
 	return nil, &os.PathError{Op: "stat", Path: p, Err: os.ErrNotExist}
@@ -116,56 +114,56 @@ type memReader struct{ *bytes.Reader }
 
 func (memReader) Close() error { return nil }
 
-func (v *memVFS) Open(p string) (files.ReadableFile, error) {
+func (v *MemVFS) Open(p string) (files.ReadableFile, error) {
 	if err := v.failing("open", p); err != nil {
 		return nil, err
 	}
-	f, ok := v.im.Files[p]
+	f, ok := v.Im.Files[p]
 	if !ok {
 		return nil, &os.PathError{Op: "open", Path: p, Err: os.ErrNotExist}
 	}
 	return memReader{bytes.NewReader(append([]byte(nil), f...))}, nil
 }
 
-func (v *memVFS) MkdirAll(p string, perm os.FileMode) error {
+func (v *MemVFS) MkdirAll(p string, perm os.FileMode) error {
 	if err := v.failing("mkdir", p); err != nil {
 		return err
 	}
 	for q := p; q != "/" && q != "." && q != ""; q = path.Dir(q) {
-		if _, isFile := v.im.Files[q]; isFile {
+		if _, isFile := v.Im.Files[q]; isFile {
 			return &os.PathError{Op: "mkdir", Path: q, Err: errors.New("not a directory")}
 		}
 	}
 	var mk []string
 	for q := p; q != "/" && q != "." && q != ""; q = path.Dir(q) {
-		if !v.im.Dirs[q] {
+		if !v.Im.Dirs[q] {
 			mk = append(mk, q)
 		}
 	}
 	sort.Strings(mk)
 	for _, q := range mk {
-		v.im.Dirs[q] = true
-		v.rec(crashlog.Rec{Op: "mkdir", Path: q})
+		v.Im.Dirs[q] = true
+		v.rec(Rec{Op: "mkdir", Path: q})
 	}
 	return nil
 }
 
-func (v *memVFS) Rename(oldname, newname string) error {
+func (v *MemVFS) Rename(oldname, newname string) error {
 	if err := v.failing("rename", oldname); err != nil {
 		return err
 	}
-	f, ok := v.im.Files[oldname]
+	f, ok := v.Im.Files[oldname]
 	if !ok {
 		return &os.PathError{Op: "rename", Path: oldname, Err: os.ErrNotExist}
 	}
-	v.im.Files[newname] = f
-	delete(v.im.Files, oldname)
-	v.rec(crashlog.Rec{Op: "rename", Path: oldname, To: newname})
+	v.Im.Files[newname] = f
+	delete(v.Im.Files, oldname)
+	v.rec(Rec{Op: "rename", Path: oldname, To: newname})
 	return nil
 }
 
 type memWriter struct {
-	v    *memVFS
+	v    *MemVFS
 	name string
 }
 
@@ -174,22 +172,22 @@ func (w *memWriter) Write(p []byte) (int, error) {
 	if err := w.v.failing("write", w.name); err != nil {
 		return 0, err
 	}
-	f := w.v.im.Files[w.name]
-	w.v.rec(crashlog.Rec{Op: "write", Path: w.name, Off: int64(len(f)), Data: append([]byte(nil), p...)})
-	w.v.im.Files[w.name] = append(f, p...)
+	f := w.v.Im.Files[w.name]
+	w.v.rec(Rec{Op: "write", Path: w.name, Off: int64(len(f)), Data: append([]byte(nil), p...)})
+	w.v.Im.Files[w.name] = append(f, p...)
 	return len(p), nil
 }
 func (w *memWriter) Sync() error {
 	if err := w.v.failing("sync", w.name); err != nil {
 		return err
 	}
-	w.v.rec(crashlog.Rec{Op: "sync", Path: w.name})
+	w.v.rec(Rec{Op: "sync", Path: w.name})
 	return nil
 }
 func (w *memWriter) Close() error { return w.v.failing("close", w.name) }
 
-func (v *memVFS) TempFile(dir, prefix string) (files.WritableFile, error) {
-	if !v.im.Dirs[dir] {
+func (v *MemVFS) TempFile(dir, prefix string) (files.WritableFile, error) {
+	if !v.Im.Dirs[dir] {
 		return nil, &os.PathError{Op: "open", Path: dir, Err: os.ErrNotExist}
 	}
 	if err := v.failing("tempfile", dir); err != nil {
@@ -197,16 +195,16 @@ func (v *memVFS) TempFile(dir, prefix string) (files.WritableFile, error) {
 	}
 	v.tmpN++
 	name := fmt.Sprintf("%s/%s%09d", dir, prefix, v.tmpN)
-	v.im.Files[name] = []byte{}
-	v.rec(crashlog.Rec{Op: "create", Path: name})
+	v.Im.Files[name] = []byte{}
+	v.rec(Rec{Op: "create", Path: name})
 	return &memWriter{v, name}, nil
 }
 
-func (v *memVFS) ReadDirNames(dir string) ([]string, error) {
+func (v *MemVFS) ReadDirNames(dir string) ([]string, error) {
 	if err := v.failing("readdir", dir); err != nil {
 		return nil, err
 	}
-	if !v.im.Dirs[dir] {
+	if !v.Im.Dirs[dir] {
 		return nil, &os.PathError{Op: "open", Path: dir, Err: os.ErrNotExist}
 	}
 	seen := map[string]bool{}
@@ -222,10 +220,10 @@ func (v *memVFS) ReadDirNames(dir string) ([]string, error) {
 			}
 		}
 	}
-	for f := range v.im.Files {
+	for f := range v.Im.Files {
 		add(f)
 	}
-	for d := range v.im.Dirs {
+	for d := range v.Im.Dirs {
 		add(d)
 	}
 	var out []string
@@ -236,5 +234,5 @@ func (v *memVFS) ReadDirNames(dir string) ([]string, error) {
 	return out, nil
 }
 
-var _ files.VFS = (*memVFS)(nil)
+var _ files.VFS = (*MemVFS)(nil)
 var _ io.Reader = memReader{}
